@@ -580,6 +580,24 @@ namespace bloch::runtime {
         m_gcCv.notify_all();
         if (m_gcThread.joinable())
             m_gcThread.join();
+        // Objects may still be owned by the return slot, by scopes an error left behind or by
+        // static fields. Their deleters call back into this evaluator, so release them here,
+        // while the class table and qubit bookkeeping are still alive. The run is over and its
+        // output has been flushed, so user destructors are not run (one that throws would
+        // terminate the process).
+        {
+            std::lock_guard<std::mutex> lock(m_heapMutex);
+            for (auto& w : m_heap) {
+                if (auto obj = w.lock())
+                    obj->skipDestructor = true;
+            }
+        }
+        m_returnValue = {};
+        while (!m_env.empty()) m_env.pop_back();
+        for (auto& kv : m_classTable) {
+            if (kv.second)
+                kv.second->staticStorage.clear();
+        }
     }
 
     Value RuntimeEvaluator::lookup(const std::string& name) {
